@@ -33,14 +33,16 @@ WALK = os.path.join(core.BIN, "walk")
 SHM = "/dev/shm"
 
 FILE_NAMES = ["a", "b", "B", "f1", "a-1", "a.1", "c+", "d(", "e[", "ż", "x.log", "y.tmp", "bar", "ba",
-              "foo", ".h", ".hf", "barn", "z.LOG"]
-DIR_NAMES = ["d", "D", "a-1", "a.1", "c+", "d(", "e[", "ż", "bar", "ba", "b", "foo", ".hd", "sub", "barn"]
+              "foo", ".h", ".hf", "barn", "z.LOG", "+(x)", "{a,b}"]
+DIR_NAMES = ["d", "D", "a-1", "a.1", "c+", "d(", "e[", "ż", "bar", "ba", "b", "foo", ".hd", "sub", "barn",
+             "+(x)", "@(y)", "[z]", "{a,b}", "?(q)"]
+META_NAMES = ["+(x)", "@(y)", "[z]", "{a,b}", "?(q)", "*(s)", "+(a|b)", "@(d)x"]
 LINK_NAMES = ["l", "l2", "lk-1", ".hl", "lż", "m"]
-TOP_NAMES = ["top", "t-ż.1", "r(1", ".htop", "t+[x"]
+TOP_NAMES = ["top", "t-ż.1", "r(1", ".htop", "t+[x", "+(x)", "@(y)", "[z]", "{a,b}"]
 SIZES = [0, 1, 2, 3, 5, 9]
 # literals usable in ignore files: no gitignore glob syntax ('[' would make the line invalid)
-IGN_DIRS = [n for n in DIR_NAMES[:12] if "[" not in n]
-IGN_LITERALS = [n for n in FILE_NAMES[:14] + DIR_NAMES[:12] if "[" not in n]
+IGN_DIRS = [n for n in DIR_NAMES[:12] if not any(ch in n for ch in "[]{}*?!#\\")]
+IGN_LITERALS = [n for n in FILE_NAMES[:14] + DIR_NAMES[:12] if not any(ch in n for ch in "[]{}*?!#\\")]
 
 
 # ------------------------------------------------------------------------------------------------
@@ -155,11 +157,11 @@ def gen_tree(rng, want_ignore, want_links, want_shm):
 def gen_directed(rng, which):
     """small scenarios around the known findings N1 / N2 / N5 (randomised names and padding);
     returns (spec, options overrides, roots relative to top, cwd relative to top)"""
-    nice = [n for n in DIR_NAMES if not n.startswith(".") and "[" not in n]
+    nice = [n for n in DIR_NAMES if not n.startswith(".") and not any(ch in n for ch in "[]{}*?!#()@+\\")]
     d, a = rng.choice(nice), rng.choice(nice)
     while a == d:
         a = rng.choice(nice)
-    f = rng.choice([n for n in FILE_NAMES if not n.startswith(".")])
+    f = rng.choice([n for n in FILE_NAMES if not n.startswith(".") and not any(ch in n for ch in "{}*?")])
     first, second = (d, a) if rng.chance(3, 4) else (a, d)      # creation order decides the LIFO order
     entries = [[first, "D", None], [second, "D", None], [d + "/" + f, "F", 2], [d + "/g", "F", 3],
                [a + "/l", "L", ["T", d, rng.chance(1, 3)]]]
@@ -184,6 +186,51 @@ def gen_directed(rng, which):
         o["paths"] = ["TOP:" + d + "/**"]
         o["_patkind"] = "path_abs"
         roots = [a]
+    elif which in ("ov_depth", "ov_ignore", "ov_repeat"):
+        # overlapping / repeated input paths without link following: the inner input path must be scanned
+        # on its own (its own depth count, its own empty ignore stack)
+        o["follow"] = False
+        entries = [[a, "D", None], [a + "/" + d, "D", None], [a + "/" + d + "/" + f, "F", 2], [a + "/" + d + "/g", "F", 3],
+                   [a + "/" + d + "/deep", "D", None], [a + "/" + d + "/deep/h", "F", 2], [a + "/top.f", "F", 2]]
+        inner = rng.choice([a + "/" + d, a + "/" + d + "/" + f, a + "/" + d + "/deep"])
+        if which == "ov_depth":
+            o["depth"] = rng.choice([0, 1, 1, 2])
+            roots = [a, inner] if rng.chance(1, 2) else [inner, a]
+        elif which == "ov_ignore":
+            o["no_ignore"] = False
+            entries.append([a + "/" + rng.choice([".gitignore", ".fdignore"]), "I",
+                            [rng.choice([d + "/", d, f if not any(ch in f for ch in "[]{}*?!#") else d])]])
+            roots = [a, inner] if rng.chance(1, 2) else [inner, a]
+        else:
+            o["depth"] = rng.choice([None, 1, 2])
+            roots = [a, a, "./" + a] if rng.chance(1, 2) else [inner, a + "/../" + inner, inner]
+        if rng.chance(1, 3):
+            cwd = a
+    elif which == "cwd_meta":
+        # relative patterns are anchored at a working directory whose name is glob / ext-glob syntax
+        o["follow"] = False
+        m1, m2 = rng.choice(META_NAMES), rng.choice(META_NAMES)
+        entries = [[m2, "D", None], [m2 + "/" + d, "D", None], [m2 + "/" + d + "/" + f, "F", 2], [m2 + "/" + d + "/g", "F", 3],
+                   [m2 + "/other", "D", None], [m2 + "/other/o", "F", 2], [m2 + "/x", "F", 2]]
+        cwd = m2 if rng.chance(2, 3) else ""
+        pat_dir = d if cwd else gesc(m2) + "/" + d
+        how = rng.below(3)
+        if how == 0:
+            o["paths"] = [gesc(pat_dir) if not cwd else gesc(d)]
+            o["paths"] = [o["paths"][0] + "/**"] if cwd else [gesc(m2) + "/" + gesc(d) + "/**"]
+            o["_expect_rel"] = ["under", m2 + "/" + d]
+        elif how == 1:
+            o["excludes"] = [(gesc(d) if cwd else gesc(m2) + "/" + gesc(d)) + "/**"]
+            o["_expect_rel"] = ["not_under", m2 + "/" + d]
+        else:
+            o["regex"] = True
+            import re as _re
+            o["paths"] = [(_re.escape(d) if cwd else _re.escape(m2) + "/" + _re.escape(d)) + "/.*"]
+            o["_expect_rel"] = ["under", m2 + "/" + d]
+        o["icase"] = rng.chance(1, 4)
+        o["_patkind"] = "relative_in_meta_cwd"
+        roots = [m2]
+        return {"top": m1, "entries": entries, "shm": None}, o, roots, cwd
     return {"top": "top", "entries": entries, "shm": None}, o, roots, cwd
 
 
@@ -372,15 +419,20 @@ def gen_options(rng, top, dirs_abs, files_abs, have_links, have_ignore, k3_dir=N
         d = rng.choice(dirs_abs)
         o["paths"] = [gesc(d) + "/**"]
         o["_patkind"] = "path_abs"
+        o["_expect"] = ["under", d]
     elif k == 2 and dirs_abs:
-        o["paths"] = ["REL:" + rng.choice(dirs_abs)]      # made cwd-relative once cwd is known
+        d = rng.choice(dirs_abs)
+        o["paths"] = ["REL:" + d]      # made cwd-relative once cwd is known
         o["_patkind"] = "path_rel"
+        o["_expect"] = ["under", d]
     elif k == 3 and files_abs:
         o["paths"] = [gesc(rng.choice(files_abs))]
         o["_patkind"] = "path_exact"
     elif k == 4 and dirs_abs:
-        o["excludes"] = [gesc(rng.choice(dirs_abs)) + "/**"]
+        d = rng.choice(dirs_abs)
+        o["excludes"] = [gesc(d) + "/**"]
         o["_patkind"] = "exclude_dir"
+        o["_expect"] = ["not_under", d]
     elif k == 5:
         o["paths"] = ["**/" + rng.choice(["bar", "d", "a-1", "ż"]) + "/*"]
         o["excludes"] = ["**/x.log"] if rng.chance(1, 2) else []
@@ -396,6 +448,7 @@ def gen_options(rng, top, dirs_abs, files_abs, have_links, have_ignore, k3_dir=N
         o["paths"] = [_re.escape(rng.choice(dirs_abs)) + "/.*"]
         o["_patkind"] = "regex_path"
     if k3_dir is not None:
+        o.pop("_expect", None)
         # K3: an exclude pattern that is a proper prefix (inside a component) of a directory name
         o["excludes"] = [k3_dir[:-1 - rng.below(max(1, min(2, len(os.path.basename(k3_dir)) - 1)))]]
         o["names"] = []
@@ -452,14 +505,13 @@ def gen_roots(rng, top, dirs_abs, files_abs, links_abs, shm_top):
 # the reference walk (documentation reading), on the real file system
 
 class Ref:
-    def __init__(self, case, sel_file, sel_dir, not_excl, prune, root_hidden, ign_anywhere):
+    def __init__(self, case, sel_file, sel_dir, not_excl, prune, ign_anywhere):
         self.o = case["opts"]
         self.not_excl = not_excl
         self.case = case
         self.sel_file = sel_file
         self.sel_dir = sel_dir
         self.prune = prune
-        self.root_hidden = root_hidden
         self.ign_anywhere = ign_anywhere
         self.depth = self.o["depth"] if self.o["depth"] is not None else 10 ** 9
         self.found = {}          # path -> route (list of visited paths) of the first derivation
@@ -505,8 +557,8 @@ class Ref:
         except OSError:
             return
         name = os.path.basename(path)
-        if not self.o["hidden"] and name.startswith(".") and (self.root_hidden or not is_root):
-            return
+        if not self.o["hidden"] and name.startswith(".") and level > 0:
+            return                                      # hidden names are skipped below the input paths only
         m = lst.st_mode
         isdir = st_mod.S_ISDIR(m)
         if self.ignored(stack, path, isdir):
@@ -675,7 +727,19 @@ def prepare(ctx, spec, tag, rng=None, unused=False):
 
 def make_case(tree, opts, cwd, roots):
     o = dict(opts)
-    o["paths"] = [gesc(os.path.relpath(p[4:], cwd)) + "/**" if p.startswith("REL:") else p for p in o["paths"]]
+    paths = []
+    for p in o["paths"]:
+        if p.startswith("REL:"):
+            rel = os.path.relpath(p[4:], cwd)
+            if rel == ".":
+                p = "**"
+                o.pop("_expect", None)          # a pattern starting with ** is absolute: it matches everywhere
+            else:
+                p = gesc(rel) + "/**"
+                if rel.startswith(".."):
+                    o.pop("_expect", None)      # `..` is not resolved inside patterns: no documented meaning to compare with
+        paths.append(p)
+    o["paths"] = paths
     return {"tree_tag": tree["tag"], "spec": tree["spec"], "top": tree["top"], "cwd": cwd, "roots": roots, "opts": o,
             "base": os.path.dirname(tree["top"]), "shm_top": tree["shm_top"],
             "nodes": tree["nodes"], "eval": tree["eval"], "ign": tree["ign"], "kinds": tree["kinds"]}
@@ -705,8 +769,6 @@ def classify_missing(case, p, sel_dir, refs):
         if o["follow"]:
             return {"kind": "prune_on_link_route", "follow_links": True}
         return {"kind": "prune_not_conservative", "pattern_kind": o["_patkind"]}
-    if p not in refs["root_hidden"]:
-        return {"kind": "hidden_input_path_skipped"}
     if p not in refs["ign_anywhere"]:
         return {"kind": "ignore_file_applied_outside_its_dir", "follow_links": bool(o["follow"])}
     return None
@@ -767,8 +829,10 @@ def evaluate(ctx, cases, model, do_cli, fclones):
         ctx.bump("size_filter", "%s..%s" % (o["min"], o["max"]))
         # schedule independence is what the theorems give: C09_exact (no link following) and
         # C09_exact_follow_partial (route-independent options); elsewhere only soundness is expected
+        no_hidden_names = not any(os.path.basename(q).startswith(".") for q in c["eval"]
+                                  if q.startswith(c["top"] + "/") or (c["shm_top"] and q.startswith(c["shm_top"] + "/")))
         route_indep = o["no_ignore"] and not o["one_fs"] and "0" not in bits_d and \
-            (o["depth"] is None or o["depth"] > len(c["eval"]))
+            (o["depth"] is None or o["depth"] > len(c["eval"])) and (o["hidden"] or no_hidden_names)
         sched_dep = o["follow"] and not route_indep
         ctx.bump("theorem_class", "exact_nofollow" if not o["follow"] else ("exact_follow_partial" if route_indep else "sound_only"))
         if not sched_dep and any(m[s]["walk"] != m["lifo"]["walk"] for s in scheds):
@@ -779,18 +843,34 @@ def evaluate(ctx, cases, model, do_cli, fclones):
         nontrivial = len(c["eval"]) > 8 and (len(r1["walk"]) > 0)
         ctx.distinct((c["tree_tag"], json.dumps(o, sort_keys=True), c["cwd"], tuple(c["roots"])), nontrivial)
 
+        # 2b. the simple pattern kinds have an obvious documented meaning: check the real selector against it
+        if o.get("_expect"):
+            ekind, edir = o["_expect"]
+            fold = (lambda x: x.lower()) if o["icase"] else (lambda x: x)
+            for q in c["eval"]:
+                if c["kinds"][q] not in ("F", "L"):
+                    continue
+                under = fold(q).startswith(fold(edir) + "/")
+                want = under if ekind == "under" else not under
+                if sel_file(q) != want:
+                    ctx.violation({"kind": "selector_disagrees_with_documented_pattern", "pattern_kind": o["_patkind"]},
+                                  "%s %s: matches_full_path(%s) = %s, documented meaning says %s (cwd %s)" % (
+                                      "--path" if o["paths"] else "--exclude", (o["paths"] or o["excludes"])[0], q,
+                                      sel_file(q), want, c["cwd"]),
+                                  dict(replay, path=q), found_input=True)
+                    break
+
         # 3. the documentation oracle and its code-like variants
         try:
-            doc = Ref(c, sel_file, sel_dir, not_excl, False, False, False).run()
-            ref_prune = Ref(c, sel_file, sel_dir, not_excl, True, False, False).run()
-            ref_rh = Ref(c, sel_file, sel_dir, not_excl, False, True, False).run()
-            ref_ia = Ref(c, sel_file, sel_dir, not_excl, False, False, True).run()
-            code_like = Ref(c, sel_file, sel_dir, not_excl, True, True, True).run()
+            doc = Ref(c, sel_file, sel_dir, not_excl, False, False).run()
+            ref_prune = Ref(c, sel_file, sel_dir, not_excl, True, False).run()
+            ref_ia = Ref(c, sel_file, sel_dir, not_excl, False, True).run()
+            code_like = Ref(c, sel_file, sel_dir, not_excl, True, True).run()
         except KeyError as e:
             ctx.violation({"kind": "oracle_unknown_path"}, "reference walk reached a path outside the dumped tree: %s" % e,
                           replay, found_input=False)
             continue
-        refs = {"prune": set(ref_prune), "root_hidden": set(ref_rh), "ign_anywhere": set(ref_ia), "doc_routes": doc}
+        refs = {"prune": set(ref_prune), "ign_anywhere": set(ref_ia), "doc_routes": doc}
         replay["reference_selected"] = sorted(doc)
         replay["implementation_1thread"] = r1["scan"]
         replay["model_lifo"] = m["lifo"]["scan"]
@@ -948,12 +1028,23 @@ def run(ctx):
             ctx.bump("nesting", maxnest)
             if ti % 8 == 0:
                 which = ["n1_depth", "n1_roots", "n1_ignore", "n5", "n2"][(ti // 8) % 5]
-                dspec, dopts, droots, dcwd = gen_directed(rng, which)
-                dtree = prepare(ctx, dspec, "d%d" % ti, rng, False)
-                dopts["paths"] = [gesc(dtree["top"] + "/" + x[4:-3]) + "/**" if x.startswith("TOP:") else x for x in dopts["paths"]]
-                ctx.bump("directed_scenario", which)
-                batch.append(make_case(dtree, dopts, os.path.join(dtree["top"], dcwd) if dcwd else dtree["top"],
-                                       [os.path.join(dtree["top"], r) if r else dtree["top"] for r in droots]))
+                extra = ["ov_depth", "ov_ignore", "ov_repeat", "cwd_meta"][(ti // 8) % 4]
+                for wi, which in enumerate((which, extra, "cwd_meta" if extra != "cwd_meta" else "ov_depth")):
+                    dspec, dopts, droots, dcwd = gen_directed(rng, which)
+                    dtree = prepare(ctx, dspec, "d%d_%d" % (ti, wi), rng, False)
+                    dopts["paths"] = [gesc(dtree["top"] + "/" + x[4:-3]) + "/**" if x.startswith("TOP:") else x for x in dopts["paths"]]
+                    if "_expect_rel" in dopts:
+                        kind_, rel_ = dopts.pop("_expect_rel")
+                        dopts["_expect"] = [kind_, os.path.join(dtree["top"], rel_)]
+                    ctx.bump("directed_scenario", which)
+                    dcwd_abs = os.path.join(dtree["top"], dcwd) if dcwd else dtree["top"]
+                    droots_final = []
+                    for r in droots:
+                        full = os.path.join(dtree["top"], r) if r else dtree["top"]
+                        if (which.startswith("ov_") or which == "cwd_meta") and rng.chance(1, 2):
+                            full = os.path.relpath(os.path.normpath(full), dcwd_abs)
+                        droots_final.append(full)
+                    batch.append(make_case(dtree, dopts, dcwd_abs, droots_final))
             for k in range(per_tree):
                 k3 = None
                 if k == per_tree - 1 and rng.chance(1, 2):
